@@ -221,47 +221,71 @@ def go_apply(ctx, vin, tag="a", every=None):
     return rows, summ[0]
 
 
-# ------------------------------------------------ the schedule in effect
+# ------------------------------------------------ the schedules in effect
 BOOT = {"tz": "Local", "w": [[0, 0, 0, 0]] * 7}
+BOOT2 = {"g": BOOT, "c": BOOT}
 
 
 def dkey(d):
     return json.dumps(d, sort_keys=True)
 
 
-def holder_walk(ctx, edges):
-    """One walk from the boot state that takes every edge TLC enumerated:
-    stay in a state until its rejected documents (self loops) and its installs
-    are used up, then install a state that still has untaken edges."""
+def holder_walk(ctx, edges, eff):
+    """One walk from the boot state that takes every edge TLC enumerated (each
+    (state of both holders, holder, request) once): stay in a state until its
+    rejected requests (self loops) and its accepted ones are used up, then move
+    to the nearest state that still has untaken edges; a `reset` (two new
+    servers) leads back to the boot state."""
     rng = random.Random(ctx.seed * 104729 + 18)
     adj = {}
     for e in edges:
         adj.setdefault(dkey(e["src"]), []).append(e)
     for k in adj:
         rng.shuffle(adj[k])
-        adj[k].sort(key=lambda e: e["out"] == "ok")      # rejected ones first, then the installs
+        adj[k].sort(key=lambda e: e["out"] == "ok")      # rejected ones first
     pos = {k: 0 for k in adj}
-    cur, steps, left = dkey(BOOT), [], len(edges)
+    boot = dkey(BOOT2)
+    cur, steps, left, n = boot, [], len(edges), 0
     if cur not in adj:
         raise vlib.Inconclusive("holder spec has no edge from the boot state")
+
+    def step(e):
+        nonlocal n
+        n += 1
+        return {"i": n, "h": e["h"], "act": e["act"], "doc": e["doc"], "out": e["out"], "src": e["src"],
+                "dst": e["dst"], "eff": {h: eff[dkey(e["dst"][h])] for h in ("g", "c")}}
+
     while left:
         if pos[cur] < len(adj[cur]):
             e = adj[cur][pos[cur]]
             pos[cur] += 1
             left -= 1
-        else:
-            # transfer: any install towards a state with untaken edges (already taken once)
-            e = next((x for x in adj[cur] if x["out"] == "ok" and pos[dkey(x["dst"])] < len(adj[dkey(x["dst"])])), None)
-            if e is None:
-                # only a new server is in the boot state again
-                if cur != dkey(BOOT) and pos[dkey(BOOT)] < len(adj[dkey(BOOT)]):
-                    steps.append({"reset": True})
-                    cur = dkey(BOOT)
+            steps.append(step(e))
+            cur = dkey(e["dst"])
+            continue
+        # breadth-first search over accepted requests (and reset) for a state with untaken edges
+        prev, queue, goal = {cur: None}, [cur], None
+        while queue and goal is None:
+            u = queue.pop(0)
+            nxt = [(dkey(x["dst"]), x) for x in adj.get(u, []) if x["out"] == "ok"] + [(boot, None)]
+            for v, x in nxt:
+                if v in prev:
                     continue
-                raise vlib.Inconclusive("holder walk is stuck with %d edges left" % left)
-        steps.append({"i": len([x for x in steps if not x.get("reset")]) + 1, "doc": e["doc"], "out": e["out"], "src": e["src"], "dst": e["dst"],
-                      "eff": e["eff"]})
-        cur = dkey(e["dst"])
+                prev[v] = (u, x)
+                if pos.get(v, 0) < len(adj.get(v, [])):
+                    goal = v
+                    break
+                queue.append(v)
+        if goal is None:
+            raise vlib.Inconclusive("holder walk is stuck with %d edges left" % left)
+        path = []
+        while prev[goal] is not None:
+            u, x = prev[goal]
+            path.append(x)
+            goal = u
+        for x in reversed(path):
+            steps.append({"reset": True} if x is None else step(x))
+            cur = boot if x is None else dkey(x["dst"])
     return steps
 
 
@@ -277,13 +301,56 @@ def go_holder(ctx, steps, tag="a"):
 
 
 def holder_describe(r):
-    return "%s: after %s, PUT %s answered %s (spec: %s); in effect afterwards %s, spec %s; %s" % (
-        r.get("what"), dkey(r.get("src")), dkey(r.get("doc")), "ok" if r.get("got_ok") else "error",
-        r.get("want_out"), dkey(r.get("got_dst")), dkey(r.get("want_dst")), "; ".join(r.get("eff") or [])[:200])
+    return "%s: holders %s; %s to holder %s with %s answered %s (spec: %s); in effect afterwards %s, spec %s; %s%s" % (
+        r.get("what"), dkey(r.get("src")), r.get("act"), r.get("h"), dkey(r.get("doc")),
+        "ok" if r.get("got_ok") else "error", r.get("want_out"), dkey(r.get("got_dst")), dkey(r.get("want_dst")),
+        "; ".join(r.get("eff") or [])[:200],
+        (" [after %d earlier requests in the same process]" % len(r["hist"])) if r.get("hist") else "")
+
+
+def holder_confirm(ctx, walk, bads):
+    """Confirm reproduced disagreements of the walk in NEW PROCESSES and find how
+    much of the walk before the step is needed (hidden state may be shared
+    between holders and servers): the source state installed through the API
+    only; the 25 requests before it; everything since the start."""
+    plain = [x for x in walk]
+    index = {x["i"]: k for k, x in enumerate(plain) if not x.get("reset")}
+    out, runs = [], 0
+    for r in bads:
+        k = index.get(r["step"])
+        if k is None:
+            continue
+        st = plain[k]
+        confirmed = None
+        for nh in (0, 25, k):
+            hist = plain[max(0, k - nh):k]
+            w = [{"reset": True}]
+            if nh == 0:
+                for h in ("g", "c"):
+                    if st["src"][h]["tz"] != "Local" or any(x != [0, 0, 0, 0] for x in st["src"][h]["w"]):
+                        w.append({"i": -1, "h": h, "act": "put", "doc": st["src"][h], "out": ""})
+            else:
+                w += [dict(x, out="", dst=None) if not x.get("reset") else x for x in hist]
+            w.append(dict(st, i=10 ** 9))
+            rows, _ = go_holder(ctx, w, tag="c%d" % runs)
+            runs += 1
+            if any(x.get("kind") == "bad" for x in rows):
+                confirmed = [x for x in w[1:-1]]
+                b = next(x for x in rows if x.get("kind") == "bad")
+                r = dict(r, got_ok=b["got_ok"], got_dst=b["got_dst"], eff=b["eff"], reply=b.get("reply"))
+                break
+            if nh >= k:
+                break
+        if confirmed is None:
+            ctx.notes.append("holder step %s not reproduced in a new process" % r["step"])
+            continue
+        r["hist"] = confirmed
+        out.append(r)
+    return out
 
 
 def holder_trace(ctx):
-    """Direction B for the holder: random histories judged by TraceScheduleHolder."""
+    """Direction B for the holders: random histories judged by TraceScheduleHolder."""
     tout = ctx.path("c18_htrace.ndjson")
     rc, out = ctx.go_test(FPKG, FFILES, "^TestZZVerifC18HolderTrace$", env={"VERIF_OUT": tout}, synctest=True)
     rows = vlib.read_ndjson(tout)
@@ -294,53 +361,61 @@ def holder_trace(ctx):
     if not r["vectors"] or r["vectors"][-1]["n"] != len(rows):
         raise vlib.Inconclusive("holder trace spec did not consume the trace")
     bad = sorted(r["vectors"][-1]["bad"])
-    # corrupted line: an accepted update whose read-back differs must be rejected
-    head = [dict(x) for x in rows[:120]]
-    j = next((i for i, x in enumerate(head) if x["k"] == "put" and x["ok"] == 1 and (i + 1) not in bad
-              and any(a != [0, 0] for a in x["gw"])), None)
+    # corrupted lines: an accepted update whose read-back differs, and a change of the other holder
+    head = [json.loads(json.dumps(x)) for x in rows[:140]]
+    j = next((i for i, x in enumerate(head) if x["k"] == "op" and x["ok"] == 1 and x["act"] != "null"
+              and (i + 1) not in bad and any(a != [0, 0] for a in x[x["h"]]["w"])), None)
     if j is None:
-        raise vlib.Inconclusive("no accepted update among the first 120 holder trace lines")
-    head[j]["gw"] = [[0, 0]] * 7
+        raise vlib.Inconclusive("no accepted update among the first 140 holder trace lines")
+    head[j][head[j]["h"]]["w"] = [[0, 0]] * 7
+    k = next((i for i, x in enumerate(head) if i > j + 1 and x["k"] == "op" and (i + 1) not in bad), None)
+    if k is None:
+        raise vlib.Inconclusive("no second accepted line among the first 140 holder trace lines")
+    oth = "c" if head[k]["h"] == "g" else "g"
+    head[k][oth]["w"] = [[60000, 120000]] + head[k][oth]["w"][1:]
     cpath = ctx.path("c18_htrace_corrupt.ndjson")
     vlib.write_ndjson(cpath, head)
     rc_ = ctx.tlc("TraceScheduleHolder", "TraceScheduleHolder.cfg", workers=1, timeout=300,
                   extra_files=[(cpath, "trace.ndjson")])
-    if not rc_["vectors"] or (j + 1) not in rc_["vectors"][-1]["bad"]:
-        raise vlib.Inconclusive("TraceScheduleHolder accepted a corrupted line (%d)" % (j + 1))
-    ctx.cov["binding_demo_holder_trace"] = {"corrupted_line": j + 1, "field": "gw", "rejected": True}
+    cb = rc_["vectors"][-1]["bad"] if rc_["vectors"] else []
+    if (j + 1) not in cb or (k + 1) not in cb:
+        raise vlib.Inconclusive("TraceScheduleHolder accepted a corrupted line (%d, %d): %s" % (j + 1, k + 1, cb[:10]))
+    ctx.cov["binding_demo_holder_trace"] = {"corrupted_lines": [j + 1, k + 1],
+                                            "fields": ["read-back of the updated holder", "read-back of the other holder"],
+                                            "rejected": True}
     return rows, bad
 
 
-def doc_of(tz, w, wn):
-    return {"tz": tz, "w": [[a[0], a[1], b[0], b[1]] for a, b in zip(w, wn)]}
+def doc_of(o):
+    return {"tz": o["tz"], "w": [[a[0], a[1], b[0], b[1]] for a, b in zip(o["w"], o["wn"])]}
 
 
 def holder_trace_repro(ctx, rows, bad):
-    """Re-run each rejected step alone (one batch): new server, the schedule
-    observed before the step, the same document; reproduced = the same
+    """Re-run rejected steps in a new process: everything since the last reset
+    (hidden state may be shared), the same request; reproduced = the same
     observation again."""
-    walk, recs = [], []
-    for i in bad[:300]:
-        row = rows[i - 1]
-        prev = rows[i - 2] if i >= 2 and rows[i - 2].get("k") == "put" else None
-        walk.append({"reset": True})
-        prevdoc = doc_of(prev["gtz"], prev["gw"], prev["gwn"]) if prev else BOOT
-        if prevdoc["tz"] != "Local":
-            walk.append({"i": -i, "doc": prevdoc, "out": "", "eff": []})
-        doc = doc_of(row["tz"], row["w"], row["wn"])
-        walk.append({"i": i, "doc": doc, "out": "", "eff": [[p[0], p[2]] for p in row["probes"]]})
-        got = doc_of(row["gtz"], row["gw"], row["gwn"])
-        recs.append((i, row, got, {"what": "holder-trace", "trace_line": i, "src": prevdoc, "doc": doc,
-                                   "got_ok": bool(row["ok"]), "got_dst": got, "probes": row["probes"],
-                                   "want_out": "see TraceScheduleHolder", "want_dst": None}))
-    if not walk:
-        return []
-    obs, _ = go_holder(ctx, walk, tag="t")
-    byi = {x.get("i"): x for x in obs if x.get("kind") == "obs"}
     out = []
-    for i, row, got, rec in recs:
-        o = byi.get(i)
+    for n, i in enumerate(bad[:8]):
+        row = rows[i - 1]
+        k = i - 1
+        while k > 0 and rows[k - 1].get("k") != "reset":
+            k -= 1
+        walk = [{"reset": True}]
+        for m in range(k, i):
+            x = rows[m]
+            st = {"i": m + 1, "h": x["h"], "act": x["act"], "doc": doc_of(x), "out": ""}
+            if m == i - 1:
+                st["eff"] = {h: [[p[0], p[2]] for p in x[h]["probes"]] for h in ("g", "c")}
+            walk.append(st)
+        obs, _ = go_holder(ctx, walk, tag="t%d" % n)
+        o = next((x for x in obs if x.get("kind") == "obs" and x.get("i") == i), None)
+        got = {h: doc_of(row[h]) for h in ("g", "c")}
         same = o is not None and o["ok"] == row["ok"] and o["get"] == got and not o.get("eff")
+        prev = rows[i - 2] if i >= 2 and rows[i - 2].get("k") == "op" else None
+        rec = {"what": "holder-trace", "trace_line": i, "h": row["h"], "act": row["act"],
+               "src": {h: doc_of(prev[h]) for h in ("g", "c")} if prev else BOOT2, "doc": doc_of(row),
+               "got_ok": bool(row["ok"]), "got_dst": got, "probes": {h: row[h]["probes"] for h in ("g", "c")},
+               "want_out": "see TraceScheduleHolder", "want_dst": None, "hist": walk[1:-1]}
         out.append((rec, same))
     return out
 
@@ -491,30 +566,52 @@ def run(ctx):
             known_apply += 1
         report(ctx, k, r, describe(r))
 
-    # ---- 3b. the schedule in effect under a history of updates (ScheduleHolder.tla)
+    # ---- 3b. the schedules in effect under a history of requests (ScheduleHolder.tla)
     hgen = ctx.tlc("ScheduleHolder", "ScheduleHolder.gen.cfg", workers=4, timeout=600)
-    edges = [v for v in hgen["vectors"] if v.get("k") == "edge"]
+    eff = {dkey(v["doc"]): v["eff"] for v in hgen["vectors"] if v.get("k") == "state"}
+    edges, seen = [], set()
+    for v in hgen["vectors"]:
+        if v.get("k") != "edge":
+            continue
+        key = (dkey(v["src"]), v["h"], v["act"], dkey(v["doc"]))
+        if key not in seen:          # TLC emits an edge once per value of the history variables
+            seen.add(key)
+            edges.append(v)
     n_rej = sum(1 for e in edges if e["out"] == "rejected")
-    if len(edges) < 1000 or n_rej < 500 or n_rej == len(edges):
-        raise vlib.Inconclusive("vacuous: holder spec emitted %d edges, %d rejected" % (len(edges), n_rej))
-    walk = holder_walk(ctx, edges)
+    acts = {(e["h"], e["act"]) for e in edges}
+    srcs = {dkey(e["src"]) for e in edges}
+    dsts = {dkey(e["dst"]) for e in edges}
+    per_src = {}
+    for e in edges:
+        per_src[dkey(e["src"])] = per_src.get(dkey(e["src"]), 0) + 1
+    if not dsts <= srcs or min(per_src.values()) < 60:
+        raise vlib.Inconclusive("holder spec: a reachable state has no (or too few) outgoing edges printed")
+    if len(edges) < 5000 or n_rej < 3000 or len(acts) != 8 or len(eff) < 11:
+        raise vlib.Inconclusive("vacuous: holder spec emitted %d edges, %d rejected, requests %s, %d states" % (
+            len(edges), n_rej, sorted(acts), len(eff)))
+    walk = holder_walk(ctx, edges, eff)
     hrows, hsumm = go_holder(ctx, walk)
-    if hsumm["steps"] + hsumm["truncated"] != len([x for x in walk if not x.get("reset")]) or any(r.get("kind") == "skip" for r in hrows):
-        raise vlib.Inconclusive("holder walk: %s of %d steps, skips %s" % (
-            hsumm["steps"], len(walk), [r for r in hrows if r.get("kind") == "skip"][:2]))
-    for r in hrows:
-        if r.get("kind") == "bad":
-            report(ctx, None, r, holder_describe(r))
+    if hsumm["steps"] + hsumm["truncated"] != len([x for x in walk if not x.get("reset")]):
+        raise vlib.Inconclusive("holder walk: %s+%s of %d steps" % (hsumm["steps"], hsumm["truncated"], len(walk)))
+    hbad = [r for r in hrows if r.get("kind") == "bad"]
+    kinds = {}
+    for r in hbad:
+        kinds.setdefault(r["what"], []).append(r)
+    for what, rs in sorted(kinds.items()):
+        ctx.cov.setdefault("disagreements_by_kind", {})[what] = len(rs)
+        for r in holder_confirm(ctx, walk, rs[:4]):
+            ctx.disagreement(None, r, holder_describe(r))
     htrows, htbad = holder_trace(ctx)
     hunrepro = 0
     for rec, same in holder_trace_repro(ctx, htrows, htbad):
         if not same:
             hunrepro += 1
-            ctx.notes.append("holder trace line %d not reproduced in isolation" % rec["trace_line"])
+            ctx.notes.append("holder trace line %d not reproduced in a new process" % rec["trace_line"])
             continue
         report(ctx, None, rec, holder_describe(rec))
-    if hunrepro > 3:
-        raise vlib.Inconclusive("%d rejected holder trace lines did not reproduce" % hunrepro)
+    if hunrepro > 2 or (hbad and not ctx.violations):
+        raise vlib.Inconclusive("holder disagreements did not reproduce in a new process (%d walk steps, %d trace lines)" % (
+            len(hbad), hunrepro))
 
     # ---- 4. direction B
     trows, tbad, tmism = trace_validate(ctx)
@@ -648,28 +745,27 @@ def trace_record(row, i, hist=None):
 def replay(ctx, path):
     rec = json.load(open(path))["record"]
     if str(rec.get("what", "")).startswith("holder"):
-        walk = [{"reset": True}]
-        if rec["src"]["tz"] != "Local":
-            walk.append({"i": 1, "doc": rec["src"], "out": "", "eff": []})
+        walk = [{"reset": True}] + list(rec.get("hist") or [])
+        last = {"i": 10 ** 9, "h": rec["h"], "act": rec["act"], "doc": rec["doc"]}
         if rec.get("want_dst") is not None:
-            walk.append({"i": 2, "doc": rec["doc"], "out": rec["want_out"], "src": rec["src"], "dst": rec["want_dst"],
-                         "eff": rec.get("probes") or []})
+            last.update({"out": rec["want_out"], "src": rec["src"], "dst": rec["want_dst"], "eff": rec.get("probes") or {}})
         else:
-            walk.append({"i": 2, "doc": rec["doc"], "out": "", "eff": [[p[0], p[2]] for p in rec.get("probes") or []]})
+            last.update({"out": "", "eff": {h: [[p[0], p[2]] for p in rec["probes"][h]] for h in ("g", "c")}})
+        walk.append(last)
         rows, _ = go_holder(ctx, walk, tag="r")
         bad = [r for r in rows if r.get("kind") == "bad"]
-        obs = next((r for r in rows if r.get("kind") == "obs" and r.get("i") == 2), {})
+        obs = next((r for r in rows if r.get("kind") == "obs" and r.get("i") == 10 ** 9), {})
+        head = {"earlier_requests_in_the_same_process": len(rec.get("hist") or []), "holders_before": rec["src"],
+                "request": {"holder": rec["h"], "act": rec["act"], "doc": rec["doc"]}}
         if rec.get("want_dst") is None:
             same = obs.get("ok") == int(rec["got_ok"]) and obs.get("get") == rec["got_dst"] and not obs.get("eff")
-            print(json.dumps({"in_effect_before": rec["src"], "put": rec["doc"],
-                              "recorded": {"ok": rec["got_ok"], "in_effect_after": rec["got_dst"]},
-                              "observed": {"ok": bool(obs.get("ok")), "in_effect_after": obs.get("get")},
-                              "same_as_recorded": same}, indent=1))
+            print(json.dumps(dict(head, recorded={"ok": rec["got_ok"], "holders_after": rec["got_dst"]},
+                                  observed={"ok": bool(obs.get("ok")), "holders_after": obs.get("get")},
+                                  same_as_recorded=same), indent=1))
             return 1 if same else 0
-        print(json.dumps({"in_effect_before": rec["src"], "put": rec["doc"],
-                          "expected": {"reply": rec["want_out"], "in_effect_after": rec["want_dst"]},
-                          "observed": {"ok": bool(obs.get("ok")), "in_effect_after": obs.get("get"),
-                                       "probe_disagreements": [b.get("eff") for b in bad]}}, indent=1))
+        print(json.dumps(dict(head, expected={"reply": rec["want_out"], "holders_after": rec["want_dst"]},
+                              observed={"ok": bool(obs.get("ok")), "holders_after": obs.get("get"),
+                                        "probe_disagreements": [b.get("eff") for b in bad]}), indent=1))
         return 1 if bad else 0
     if "pt" in rec:
         vec = {"k": "eval", "c": rec.get("c", "replay"), "zone": rec["zone"], "shape": rec.get("shape", "replay"),
